@@ -298,7 +298,8 @@ fn inject(rng: &mut Rng, root: &Path, b: &mut Built, kind: &str, prefix: &mut Ve
         "schema-stray-brace" => {
             let t = &mut b.proj.schema_files[sj].1;
             let cands = line_starts_matching(t, |l| l == "}");
-            match rng.below(3) {
+            // (a brace appended after an unclosed definition would repair it: put it first then)
+            match if t.contains("Unclosed") { 0 } else { rng.below(3) } {
                 0 => t.insert_str(0, "}\n"),
                 1 if !cands.is_empty() => { let at = *rng.pick(&cands); t.insert_str(at, "}\n"); }
                 _ => t.push_str("}\n"),
@@ -316,7 +317,7 @@ fn inject(rng: &mut Rng, root: &Path, b: &mut Built, kind: &str, prefix: &mut Ve
             f.stage = 1; f.files = vec![sfile];
         }
         "op-stray-brace" => {
-            if rng.chance(1, 2) { prefix[dj].insert(0, "}".into()); } else { suffix[dj].push_str("}\n"); }
+            if suffix[dj].contains("Unclosed") || rng.chance(1, 2) { prefix[dj].insert(0, "}".into()); } else { suffix[dj].push_str("}\n"); }
             f.stage = 2; f.files = vec![dfile];
         }
         "op-bad-char" => {
